@@ -478,6 +478,8 @@ def run_segment(case, seg_steps, model, root, magick):
                         enc = arr[..., ::-1] if arr.ndim == 3 and arr.shape[-1] == 3 else arr
                         okk, buf = cv2.imencode(op["ext"], enc)
                         data = buf.tobytes()
+                    elif op["encoder"].startswith("raw-tiff:"):
+                        data = encode_raw_tiff(arr, int(op["encoder"].split(":")[1]))
                     else:
                         # a lossless file produced by another program (Pillow), possibly with a compression scheme
                         # OpenCV cannot decode: then the call may raise, but must not return wrong data
@@ -514,7 +516,10 @@ def run_segment(case, seg_steps, model, root, magick):
                         viol.append({"oracle": "C18.B", "culprit": "decoded-image-kind", "step": idx,
                                      "detail": {"got": type(got).__name__, "want": want_cls, "op": op}})
                     elif got.img.dtype != want.dtype or not np.array_equal(got.img, want):
-                        viol.append({"oracle": "C18.B", "culprit": "decoded-array-differs", "step": idx, "detail": {"op": op}})
+                        # a separate culprit for the one layout recorded as a known finding (K2), so that it covers nothing else
+                        k2 = op.get("encoder") == "raw-tiff:2" and op["dtype"] == "uint16"
+                        viol.append({"oracle": "C18.B", "culprit": "decoded-array-differs" + (":planar-16bit-rgb-tiff" if k2 else ""),
+                                     "step": idx, "detail": {"op": op}})
                     else:
                         cnt("probe:bytes-verified")
                 elif k == "optical_kw":
@@ -655,6 +660,41 @@ def _short(res):
 def norm_path(p: str) -> str:
     """np.savez appends '.npz' when the name does not end with it."""
     return p if p.endswith(".npz") else p + ".npz"
+
+
+def encode_raw_tiff(arr: np.ndarray, planar: int) -> bytes:
+    """Minimal baseline TIFF writer (little endian, uncompressed, one strip per plane) for (H, W, 3) uint8/uint16
+    RGB arrays.  planar=1: chunky RGBRGB...; planar=2: separate colour planes (PlanarConfiguration=2, what e.g.
+    tifffile writes for (3, H, W) arrays)."""
+    import struct
+    h, w, c = arr.shape
+    bits = 8 * arr.dtype.itemsize
+    le = arr.astype(arr.dtype.newbyteorder("<"))
+    strips = [le.tobytes()] if planar == 1 else [np.ascontiguousarray(le[..., i]).tobytes() for i in range(3)]
+    n = len(strips)
+    n_tags = 10
+    data_offset = 8 + 2 + n_tags * 12 + 4
+    extra = b""
+
+    def add(b):
+        nonlocal extra
+        off = data_offset + len(extra)
+        extra += b + (b"\x00" if len(b) % 2 else b"")
+        return off
+    bps = add(struct.pack("<3H", bits, bits, bits))
+    offs = [add(x) for x in strips]
+    if n == 1:
+        so, sbc = offs[0], len(strips[0])
+    else:
+        so = add(struct.pack("<%dI" % n, *offs))
+        sbc = add(struct.pack("<%dI" % n, *[len(x) for x in strips]))
+    SHORT, LONG = 3, 4
+    entries = [(256, LONG, 1, w), (257, LONG, 1, h), (258, SHORT, 3, bps), (259, SHORT, 1, 1), (262, SHORT, 1, 2),
+               (273, LONG, n, so), (277, SHORT, 1, 3), (278, LONG, 1, h), (279, LONG, n, sbc), (284, SHORT, 1, planar)]
+    ifd = struct.pack("<H", len(entries))
+    for tag, typ, cnt, val in entries:
+        ifd += struct.pack("<HHIHH", tag, typ, cnt, val, 0) if (typ == SHORT and cnt == 1) else struct.pack("<HHII", tag, typ, cnt, val)
+    return b"II*\x00" + struct.pack("<I", 8) + ifd + struct.pack("<I", 0) + extra
 
 
 def gen_bytes_array(op):
@@ -803,6 +843,9 @@ class C18Engine(Engine):
                 if wl.random() < 0.35 and not (dt == "uint16" and chan == 3):
                     op["encoder"] = wl.choice(["pil:raw", "pil:tiff_lzw", "pil:tiff_adobe_deflate", "pil:tiff_lzma", "pil:zstd",
                                                "pil:packbits", "pil-png-exif:3", "pil-png-exif:6", "pil-png-exif:1", "pil-png-exif:8"])
+                if chan == 3 and wl.random() < 0.25:
+                    op["encoder"] = wl.choice(["raw-tiff:1", "raw-tiff:2"])  # hand-written baseline TIFF, chunky or planar
+                    op["ext"] = ".tif"
                 if wl.random() < 0.1:
                     op["imdecode_fails"] = True
                 prog.append(op)
